@@ -153,6 +153,31 @@ def tlc(module_path, cfg_path, env=None, workers=None, timeout=900, extra=None, 
     return r
 
 
+class Died(Exception):
+    """A harness process died while running library code (signal, abort, std::terminate, sanitizer stop, or no end within its time
+    limit): the libraries "trip none of their own internal assertions, terminate" -- that is a violation to report, not a broken check."""
+    def __init__(self, key, what, replay):
+        Exception.__init__(self, what)
+        self.key, self.what, self.replay = key, what, replay
+
+
+def harness_exit(name, rc, out, context=None):
+    """Called with the non-zero exit status of a harness: raises Died for a death inside library code, Broken otherwise
+    (usage error, unreadable input: the harness's own exits are 2 and 3)."""
+    tail = (out or '')[-1500:]
+    sig = {124: 'did-not-terminate', 134: 'abort', 136: 'fpe', 139: 'segv', -6: 'abort', -8: 'fpe', -11: 'segv', -9: 'killed'}.get(rc)
+    if sig is None and ('terminate called' in tail or 'AddressSanitizer' in tail or 'runtime error:' in tail or 'Assertion' in tail):
+        sig = 'terminate'
+    if sig is None and rc < 0:
+        sig = 'signal%d' % -rc
+    if sig is None:
+        raise Broken('%s failed rc=%d: %s' % (name, rc, tail))
+    m = re.search(r"Assertion `([^']*)' failed|expression: (.*)", tail)
+    site = re.sub(r'[^A-Za-z0-9_>!=<.()-]+', '', (m.group(1) or m.group(2)))[:50] if m else ''
+    raise Died('process-died:%s:%s%s' % (name, sig, (':' + site) if site else ''), '%s died (rc=%d): %s' % (name, rc, tail[-600:].replace('\n', ' | ')),
+               {'harness': name, 'rc': rc, 'context': context, 'tail': tail})
+
+
 class Evidence:
     def __init__(self, pid, tier, level='model_checking'):
         self.pid, self.tier, self.level = pid, tier, level
